@@ -36,6 +36,8 @@ CHECKS = {
          "In every reachable node state all 256 bytes are probed, enumeration order/min/max/fan-out/path carried checked; the 4-slot and 16-slot search/insert-position primitives are compared with a scalar scan on exhaustive domains; tree-level single-byte closures probe all 256 keys through the trees' inlined lookups."),
  "C11": ("model_checking", "E1-HIST", E1_TECH, E1_NOTE,
          "After every transition the structural dump is compared with the canonical compressed radix tree rebuilt from the reference key set (descent, branch bytes, path lengths and inline bytes, fan-out vs capacity, slot bijection, reachable leaves == Size, history independence)."),
+ "C13": ("model_checking", "E1-HIST", E1_TECH, E1_NOTE,
+         "Closures on alpha[[]byte] and collation[[]byte] trees with every key argument passed in each buffer mode (exactly full, sub-slice of a live sentinel-framed array, one reused scanner buffer): after every call the whole backing array must equal its snapshot; buffers are then overwritten and the tree must still hold and return the inserted keys. Compound trees: the codec's output arena must stay untouched."),
  "C14": ("model_checking", "E1-HIST", E1_TECH, E1_NOTE,
          "For every sequence method in every reachable state: every stop position, callbacks after false counted, then two more full passes over the same sequence value must equal the first."),
  "C15": ("model_checking", "E1-HIST", E1_TECH, E1_NOTE,
@@ -47,7 +49,6 @@ CHECKS = {
 
 PENDING = {
  "C12": "check under construction in this session (pool-model product closure, DESIGN.md §5/C12); not yet claimed",
- "C13": "check under construction in this session (buffer-mode closures, DESIGN.md §5/C13); not yet claimed",
  "C16": "check under construction in this session (statement-level schedule exploration, DESIGN.md §5/C16); not yet claimed",
  "C17": "check under construction in this session (heap probe over state x cycle pairs, DESIGN.md §5/C17); not yet claimed",
  "C18": "check under construction in this session (GC as explored environment event, DESIGN.md §5/C18); not yet claimed",
